@@ -110,19 +110,39 @@ class filt:
         return self.cm.__exit__(*a)
 
 
-def probe(st: State, op: str, a: dict, werr: bool, kind='can'):
-    """one query; never expected to raise"""
-    name = CAN[op] if kind == 'can' else VERIFY[op]
+def probe(st: State, op: str, a: dict, werr: bool):
+    """one query (can_X) and one verifier call (verify_X) with the same arguments; neither is expected to change anything,
+    the query is never expected to raise"""
+    args = pyargs(op, a)
     try:
         with filt(werr):
-            r = getattr(st, name)(*pyargs(op, a))
+            r = getattr(st, CAN[op])(*args)
         x = ''
     except BaseException as e:  # noqa: BLE001 - anything escaping a query is recorded, TLC rejects it
         r, x = False, type(e).__name__
-    return {'op': op, 'a': a, 'r': bool(r) if kind == 'can' else True, 'x': x}
+    try:
+        with filt(werr):
+            getattr(st, VERIFY[op])(*args)
+        v = ''
+    except BaseException as e:  # noqa: BLE001
+        v = type(e).__name__
+    return {'op': op, 'a': a, 'r': bool(r), 'x': x, 'v': v}
 
 
-def step(st: State, op: str, a: dict, werr: bool, probes=(), micro=True):
+def probes(st: State, universe, werr: bool):
+    """ask every (op, args) of the universe; also report whether all that asking left the State (every field) unchanged"""
+    d0 = digest(st)
+    res = [probe(st, op, a, werr) for op, a in universe]
+    try:
+        list(st.get_dealable_cards())
+        for k in (1, 3, 60):
+            list(st.get_dealable_cards(k))
+    except BaseException:  # noqa: BLE001
+        pass
+    return res, digest(st) == d0
+
+
+def step(st: State, op: str, a: dict, werr: bool, probes=(), micro=True, psame=True):
     """perform one public call and record it"""
     d0 = digest(st)
     n0 = len(st.operations)
@@ -142,7 +162,7 @@ def step(st: State, op: str, a: dict, werr: bool, probes=(), micro=True):
         tb = traceback.format_exc()[-1500:]
     finally:
         Tracer.active = None
-    ev = {'op': op, 'a': a, 'out': out, 'probes': list(probes), 'micro': mic, 'same': digest(st) == d0}
+    ev = {'op': op, 'a': a, 'out': out, 'probes': list(probes), 'micro': mic, 'same': digest(st) == d0, 'psame': psame}
     if out == 'ok' or not ev['same']:
         ev['post'] = observe(st, n0)      # also when a call that raised has changed the state: validation goes on from there
     else:
@@ -153,5 +173,5 @@ def step(st: State, op: str, a: dict, werr: bool, probes=(), micro=True):
     return ev
 
 
-def probe_only(probes):
-    return {'op': 'none', 'a': NOARGS, 'out': 'ok', 'probes': list(probes), 'micro': [], 'same': True, 'post': {}}
+def probe_only(probes, psame=True):
+    return {'op': 'none', 'a': NOARGS, 'out': 'ok', 'probes': list(probes), 'micro': [], 'same': True, 'post': {}, 'psame': psame}
